@@ -778,7 +778,7 @@ std::vector<UnitsPtr> unitsUsed(const ModelPtr &model, const ComponentConstPtr &
 
     auto componentCnUnitsNames = findComponentCnUnitsNames(component);
     for (const auto &unitsName : componentCnUnitsNames) {
-        auto u = model->units(unitsName);
+        auto u = (model != nullptr) ? model->units(unitsName) : nullptr;
         if (u == nullptr) {
             // We have used a units in the math but it is not defined in the given model, so send back a units that isn't defined.
             u = Units::create(unitsName);
